@@ -49,6 +49,16 @@ def cases(tier):
                              "observed_only": oo, "witness": func == "sum" and mk == "none" and oo}
                         c["name"] = case_name(c)
                         out.append(c)
+    # integer-position and slice masks through the public path (mask resolution in core.py, observed filter under a positional mask)
+    for labels, kind in (([1, 0], "appearance"), (["a", "b"], "categorical")):
+        for func in (("sum", "first", "size") if quick else ("sum", "first", "last", "count", "size", "max")):
+            masks = [{"kind": "fancy", "L": 3}, {"kind": "slice", "start": 1, "stop": None, "step": None}, {"kind": "slice", "start": None, "stop": -1, "step": 2}]
+            if not quick:
+                masks += [{"kind": "fancy", "L": 2}, {"kind": "slice", "start": -2, "stop": None, "step": None}, {"kind": "slice", "start": None, "stop": None, "step": -1}]
+            for mk in masks:
+                c = {"family": "assembly", "func": func, "dtype": "float64", "N": 3 if quick else 4, "G": 2, "mask": mk, "labels": labels, "state": kind, "observed_only": True}
+                c["name"] = case_name(c)
+                out.append(c)
     # two value columns: the observed filter looks at the first column's counts only and must refine them
     for labels in ([1, 0], ["b", "a"]):
         for mk in ("none", "bool_sym"):
@@ -138,7 +148,12 @@ def run_case(E, case, PROP, mode="values"):
             if gap:
                 raise Unsupported(f"model gap: {gap}") from e
             return "raised", f"{type(e).__name__}: {e}", gb
-    paths = run_paths(body)
+    saved_max = FC.max_paths
+    FC.max_paths = 1500          # a change in the code under test may concretise mask positions (int(mask[0])): still every path is decided
+    try:
+        paths = run_paths(body)
+    finally:
+        FC.max_paths = saved_max
     rows = R.selected_rows(case, d)
     bads = []
     for pc, (status, out, gb_), rt in paths:
@@ -241,6 +256,29 @@ def run_case(E, case, PROP, mode="values"):
     return r
 
 
+def _real_mask(case, conc):
+    m = case["mask"]
+    if m["kind"] == "bool_sym":
+        return real_np.array(conc["m"], dtype=bool)
+    if m["kind"] == "fancy":
+        return real_np.array(conc["p"], dtype="int64")
+    if m["kind"] == "slice":
+        return slice(m["start"], m["stop"], m["step"])
+    return None
+
+
+def _selected_positions(case, conc, N):
+    """rows in the order array indexing with the mask yields them (repeats included)"""
+    m = case["mask"]
+    if m["kind"] == "bool_sym":
+        return [i for i in range(N) if conc["m"][i]]
+    if m["kind"] == "fancy":
+        return [int(p) % N for p in conc["p"]]
+    if m["kind"] == "slice":
+        return list(range(N))[slice(m["start"], m["stop"], m["step"])]
+    return list(range(N))
+
+
 def real_state(case, codes):
     import pandas as pd
     from . import c03 as C3
@@ -260,15 +298,15 @@ def replay(case, conc, cand=None):
     dt = real_np.dtype(case["dtype"])
     labels = case["labels"]
     codes = [int(x) for x in conc["k"]]
-    mask = real_np.array(conc["m"], dtype=bool) if "m" in conc else None
+    mask = _real_mask(case, conc)
     ncols = case.get("ncols", 1)
     cols = []
     if f != "size":
         cols.append(R.np_values(R.to_float_cells(conc["v"]), dt))
         if ncols == 2:
             cols.append(R.np_values(R.to_float_cells(conc["w"]), dt))
-    d = {"codes": codes, "mask": list(map(bool, conc["m"])) if "m" in conc else None}
     problems = []
+    selected = _selected_positions(case, conc, N)
 
     def check(out, how):
         if isinstance(out, pd.Series):
@@ -278,7 +316,7 @@ def replay(case, conc, cand=None):
         for ci, ser in enumerate(frames):
             got = list(ser.index)
             for g in range(G):
-                sel = [i for i in range(N) if codes[i] == g and (mask is None or mask[i])]
+                sel = [i for i in selected if codes[i] == g]
                 n_in = sum(1 for lab in got if lab == labels[g])
                 expect = bool(sel) if case["observed_only"] else True
                 if n_in != (1 if expect else 0):
@@ -338,7 +376,7 @@ def replay_alias(case, conc, cand=None):
     dt = real_np.dtype(case["dtype"])
     labels = case["labels"]
     codes = [int(x) for x in conc["k"]]
-    mask = real_np.array(conc["m"], dtype=bool) if "m" in conc else None
+    mask = _real_mask(case, conc)
     ncols = case.get("ncols", 1)
     cols = []
     if f != "size":
@@ -358,7 +396,7 @@ def replay_alias(case, conc, cand=None):
         return gb.size(**kw) if f == "size" else getattr(gb, f)(cols if ncols == 2 else cols[0], **kw)
     problems = []
     try:
-        before = [c.copy() for c in cols] + ([mask.copy()] if mask is not None else [])
+        before = [c.copy() for c in cols] + ([mask.copy()] if isinstance(mask, real_np.ndarray) else [])
         gb = GroupBy(keys())
         call(gb)                      # warm caches the way a reused grouping has them
         r1 = call(gb)
@@ -375,7 +413,7 @@ def replay_alias(case, conc, cand=None):
         a2, a3 = real_np.asarray(r2, dtype=float), real_np.asarray(r3, dtype=float)
         if a2.shape != a3.shape or not real_np.array_equal(a2, a3, equal_nan=True) or list(r2.index) != list(r3.index):
             problems.append(f"after editing the first result the same call returns {a2.tolist()} instead of {a3.tolist()}")
-        after = cols + ([mask] if mask is not None else [])
+        after = cols + ([mask] if isinstance(mask, real_np.ndarray) else [])
         for b0, a0 in zip(before, after):
             if not real_np.array_equal(b0, a0, equal_nan=b0.dtype.kind == "f"):
                 problems.append("a caller array changed")
